@@ -318,6 +318,15 @@ def dtor_table(ctx, prog, cfg):
                   "functions: its ordering with respect to the header has not been reviewed"
                   % (short, "; ".join(d for _, _, d in ds)),
                   "reviewed: " + (ent or ""), cfg)
+        if ent is not None:
+            allowed = tables.DESTROYS_T_KINDS.get(short, {"drop"})
+            bad = [(b, k, d) for (b, k, d) in ds if k not in allowed]
+            ctx.check(not bad, "DTOR-TABLE", short, "kind of destructor site", short_loc(prog.fns[short], bad[0][0]) if bad else prog.fns[short].loc,
+                      "`%s` was reviewed for %s only, and now also %s: elements are destroyed in place by a function whose ordering with "
+                      "respect to the header has not been reviewed for that"
+                      % (short, "dropping a local that is already out of the buffer" if allowed == {"drop"} else "/".join(sorted(allowed)),
+                         "; ".join(d for _, _, d in bad)),
+                      "site kinds %s within the reviewed %s" % (sorted({k for _, k, _ in ds}), sorted(allowed)), cfg)
     missing = [s for s in tables.DESTROYS_T_REQUIRED if s not in found and table_applies(s, prog)]
     ctx.check(not missing, "DTOR-TABLE", "*", "table entries present", "?",
               "reviewed destroying functions no longer found: %s" % missing,
